@@ -5,10 +5,14 @@ import itertools
 import contextlib
 from .. import model, sweep
 from ..runner import Result, scratch
-from ..bridge import T, build, quiet, monitor, extract, mt_equal, raw_leaves, cli_options
+from ..bridge import T, build, quiet, monitor, extract, mt_equal, raw_leaves, cli_options, build_any
 from .c13 import PUNCT
 
 from trees import transform
+
+# how the tree of a case is obtained: API-built (token order / reversed child lists) or read by the export reader
+VIAS = [None, 'rev', 'export']
+_via = [None]
 
 ID = 'C11'
 LEVEL = 'exploration'
@@ -104,7 +108,7 @@ def compare(kind, where, case, mt, exp, r, t, fields=('word', 'pos', 'edge', 'le
 # ------------------------------------------------------------------ deletions
 def check_punct(mtj, quiet_flag):
     mt = model.MT.from_json(mtj)
-    case = {'op': 'punctuation_delete', 'mt': mtj, 'quiet': quiet_flag}
+    case = {'via': _via[0], 'op': 'punctuation_delete', 'mt': mtj, 'quiet': quiet_flag}
     out = []
     pos = [i + 1 for i, tk in enumerate(mt.toks) if tk['word'] in PUNCT]
     if len(pos) == mt.n():
@@ -112,7 +116,7 @@ def check_punct(mtj, quiet_flag):
     else:
         exp = ref_delete(mt, pos)
         exp_lines = ['%s\t%s\t%s\t%s' % (mt.sid, p, mt.toks[p - 1]['word'], mt.toks[p - 1]['pos']) for p in pos]
-    t = build(mt)
+    t = build_any(mt, _via[0])
     so, se = io.StringIO(), io.StringIO()
     try:
         with contextlib.redirect_stdout(so), contextlib.redirect_stderr(se):
@@ -149,7 +153,7 @@ def trace_category(word):
 
 def check_traces(mtj, params):
     mt = model.MT.from_json(mtj)
-    case = {'op': 'ptb_delete_traces', 'mt': mtj, 'params': params}
+    case = {'via': _via[0], 'op': 'ptb_delete_traces', 'mt': mtj, 'params': params}
     out = []
     keep = params.get('keep', '').split(',') if 'keep' in params else []
     keepall = 'keepall' in params
@@ -173,7 +177,7 @@ def check_traces(mtj, params):
             return nd
         return (strip_indices(nd[0], keepco), nd[1], tuple(relabel(k) for k in nd[2]))
     exp = ref_delete(model.MT(mt.sid, toks, relabel(mt.root)), delete)
-    t = build(mt)
+    t = build_any(mt, _via[0])
     try:
         r = transform.ptb_delete_traces(t, **params)
     except Exception as e:
@@ -187,12 +191,12 @@ def check_traces(mtj, params):
 
 def check_delete_terminal(mtj, position):
     mt = model.MT.from_json(mtj)
-    case = {'op': 'delete_terminal', 'mt': mtj, 'position': position}
+    case = {'via': _via[0], 'op': 'delete_terminal', 'mt': mtj, 'position': position}
     out = []
     if mt.n() == 1:
         return out
     exp = ref_delete(mt, [position])
-    t = build(mt)
+    t = build_any(mt, _via[0])
     leaf = [l for l in raw_leaves(t) if l.data['num'] == position][0]
     try:
         T.delete_terminal(t, leaf)
@@ -211,8 +215,8 @@ def check_filter(mtj):
     n = mt.n()
     for oper in ('lt', 'gt', 'eq'):
         for val in range(0, n + 2):
-            t = build(mt)
-            case = {'op': 'filter_by_length', 'mt': mtj, 'oper': oper, 'val': val}
+            t = build_any(mt, _via[0])
+            case = {'via': _via[0], 'op': 'filter_by_length', 'mt': mtj, 'oper': oper, 'val': val}
             drop = {'lt': n < val, 'gt': n > val, 'eq': n == val}[oper]
             try:
                 r = transform.filter_by_length(t, **cli_options({'filteroperator': oper, 'filtervalue': val}))   # as --params gives them
@@ -312,9 +316,9 @@ def apply_program_op(op, t, m):
 
 def check_program(mtj, program):
     mt = model.MT.from_json(mtj)
-    case = {'op': 'program', 'mt': mtj, 'program': program}
+    case = {'via': _via[0], 'op': 'program', 'mt': mtj, 'program': program}
     out = []
-    t = build(mt)
+    t = build_any(mt, _via[0])
     m = mt
     for i, op in enumerate(program):
         try:
@@ -353,7 +357,7 @@ def write_terminal_file(entries, with_pos):
 
 def check_insert(mtj, entries, quiet_flag):
     mt = model.MT.from_json(mtj)
-    case = {'op': 'insert_terminals', 'mt': mtj, 'entries': entries, 'quiet': quiet_flag}
+    case = {'via': _via[0], 'op': 'insert_terminals', 'mt': mtj, 'entries': entries, 'quiet': quiet_flag}
     out = []
     mine = [(idx, k) for k, (sid, idx) in enumerate(entries) if sid == mt.sid]
     dup = len(set((sid, idx) for sid, idx in entries)) != len(entries)
@@ -361,7 +365,7 @@ def check_insert(mtj, entries, quiet_flag):
     params = {'terminalfile': path}
     if quiet_flag:
         params['quiet'] = True
-    t = build(mt)
+    t = build_any(mt, _via[0])
     so = io.StringIO()
     try:
         with contextlib.redirect_stdout(so):
@@ -413,14 +417,14 @@ def check_insert(mtj, entries, quiet_flag):
 
 def check_substitute(mtj, entries, with_pos, quiet_flag):
     mt = model.MT.from_json(mtj)
-    case = {'op': 'substitute_terminals', 'mt': mtj, 'entries': entries, 'with_pos': with_pos, 'quiet': quiet_flag}
+    case = {'via': _via[0], 'op': 'substitute_terminals', 'mt': mtj, 'entries': entries, 'with_pos': with_pos, 'quiet': quiet_flag}
     out = []
     dup = len(set((sid, idx) for sid, idx in entries)) != len(entries)
     path = write_terminal_file(entries, with_pos)
     params = {'terminalfile': path}
     if quiet_flag:
         params['quiet'] = True
-    t = build(mt)
+    t = build_any(mt, _via[0])
     try:
         with contextlib.redirect_stdout(io.StringIO()):
             r = transform.substitute_terminals(t, **params)
@@ -454,6 +458,7 @@ def check_substitute(mtj, entries, with_pos, quiet_flag):
 
 def check_case(case):
     with quiet():
+        _via[0] = case.get('via')
         op = case['op']
         if op == 'program':
             return check_program(case['mt'], case['program'])
@@ -479,7 +484,9 @@ def run_chunk(chunk):
         res.outcome((key, len(vs)))
         for v in vs:
             res.violation(v['kind'], v['where'], v['case'], v['detail'], v['what'])
+        _via[0] = VIAS[res.evals % len(VIAS)]      # the next case gets its tree by the next route
     with quiet():
+        _via[0] = None
         n = chunk['n']
         if chunk['kind'] == 'delete':
             subsets = [s for r in range(0, n + 1) for s in itertools.combinations(range(n), r)]
